@@ -161,13 +161,13 @@ Section RankPass.
     exists (v :: grp), z'. split; [cbn; now rewrite Hz|]. split; [cbn; now rewrite Hlen|]. split; [|split].
     - intros x y Hx Hy. unfold flip. destruct Hx as [<-|Hx]; destruct Hy as [<-|Hy].
       + apply cmp_refl.
-      + apply Hvx. exact Hy.
-      + rewrite cmp_antisym, (Hvx x Hx). reflexivity.
+      + rewrite cmp_antisym, (Hvx y Hy). reflexivity.
+      + apply Hvx. exact Hx.
       + apply (Heq x y Hx Hy).
     - intros x y Hx Hy. destruct Hx as [<-|Hx]; [|apply (Hgt x y Hx Hy)]. unfold flip.
       destruct (Hgt v' y Hv'grp Hy) as [H1 H2]. unfold flip in H1, H2. split.
-      + rewrite cmp_antisym, (cmp_eq_compat x v' y Hc), <- cmp_antisym. exact H1.
-      + rewrite (cmp_eq_compat x v' y Hc). exact H2.
+      + rewrite cmp_antisym, (cmp_eq_compat v v' y Hc), <- cmp_antisym. exact H1.
+      + rewrite (cmp_eq_compat v v' y Hc). exact H2.
     - exact Hrest.
   Qed.
 
